@@ -5,6 +5,7 @@ import framework as fw
 ID = "C15"
 COQ_IMPORTS = ["From HTA.model Require Import C15_Model."]
 SOURCES = {"hta/analyzers/cuda_kernel_analysis.py": ["cuda_kernel_launch_stats"]}
+INPUT_CONTRACT = True        # the loaded frame is re-checked against the file (framework.input_contract)
 N_CASES = {"quick": 300, "thorough": 4000}
 RULE = ("generated well-formed file sets (profiles default/fifo_tiny/fifo_steps/free_overlap (the last one places device activities anywhere, also before their launch call), 1-3 ranks, missing kernels, orphan kernels, "
         "memcpy/memset launches, equal timestamps), flag include_memory_events drawn per case; non-trivial = the rank has at least one "
